@@ -11,7 +11,7 @@ PLAN = dict(
     assumptions=TRUSTED + ["What the writer holds after a refused call sequence (ErrInvalidUTF8 / ErrDuplicatedKey) is unspecified and not compared, "
                            "except that the refused EncodeTextString call itself must not have written anything"],
     runs=[
-        dict(name="exh", run="^(TestExhaustiveInts|TestCorpus)$"),
+        dict(name="exh", run="^(TestExhaustiveInts|TestExhaustiveCodePoints|TestCorpus)$"),
         dict(name="tree", run="^TestPropTree$", checks=(20000, 125000), shards=(1, 16)),
     ],
     technique="rapid-generated value trees driven through the encoder API in permuted caller orders, differential against an independent RFC 8949 decoder and deterministic-encoding judge; exhaustive head-size boundaries with exact expected bytes",
